@@ -281,7 +281,8 @@ fn generated() -> Vec<Proj> {
     }
     // omerc: variant x centre x azimuth x offsets
     for (var, vl) in [("", "variant A"), (" variant", "variant B")] {
-        for (latc, lonc) in [(4., 115.), (45., -86.), (-18.9, 46.437), (30., 10.), (-30., -60.)] {
+        // (one centre next to the antimeridian: the domain straddles it)
+        for (latc, lonc) in [(4., 115.), (45., -86.), (-18.9, 46.437), (30., 10.), (-30., -60.), (-17., 178.)] {
             for alpha in [53.3158, -30., 18.9, 90., 337.25556, 91., 135., 200., -90.] {
                 for (o, ol) in offs {
                     let hl = if latc > 0. { "north" } else { "south" };
@@ -298,7 +299,7 @@ fn generated() -> Vec<Proj> {
     }
     // somerc: centre x k_0 x offsets
     for lat_0 in [46.9524055555556, -30., 10., 60.] {
-        for lon_0 in [7.43958333333333, 120., -70.] {
+        for lon_0 in [7.43958333333333, 120., -70., 175.] {
             for (k, kl) in [("", "k_0=1"), (" k_0=0.9999", "k_0")] {
                 for (o, ol) in offs {
                     let hl = if lat_0 > 0. { "north" } else { "south" };
